@@ -411,7 +411,9 @@ def run_threads(spec, res):
                 res.violation('build-body-executed-%d-times' % n, case, f'{fam} {version}: GlobalMaps.load ran {n} times for racing builders')
             g = globals_sig(schema)
             if g != seq_globals:
-                res.violation('raced-build-globals-differ', case, f'{fam} {version}: {len(g)} globals vs {len(seq_globals)} sequential')
+                # (a user that never called build() can leave the maps damaged for good: the listed finding of that scenario)
+                res.violation('unbuilt-schema-used-while-another-thread-builds:result-differs' if scenario == 'late_user'
+                              else 'raced-build-globals-differ', case, f'{fam} {version}: {len(g)} globals vs {len(seq_globals)} sequential')
         bad = None
         for t, out in enumerate(results):
             if out is None:
